@@ -247,28 +247,29 @@ theorem radial_at_zero_pos (n m : Nat) (hm : 0 < m) : radialEval n m 0 = 0 := by
 theorem radial_at_zero_table :
     ((List.range 11).all fun j => radialEval (2 * j) 0 0 == (-1 : Rat) ^ j) = true := by decide +kernel
 
-/-- value at the exact centre: `0` for `m > 0`, `(-1)^(n/2)` for `m = 0` (what the repaired code returns;
-the unrepaired code returns NaN for `n - m ≥ 4`, see `Old.radial_nan_at_centre`) -/
-theorem radial_at_zero (n m : Nat) (hn : n ≤ 20) (hm : m ≤ n) (hpar : (n - m) % 2 = 0) :
+/-- **Value at the exact centre, every radial order** (no table, no bound): `0` for `m > 0`, `(-1)^(n/2)` for `m = 0` — what
+the repaired code returns; the unrepaired code returns NaN for `n - m ≥ 4`, see `Old.radial_nan_at_centre`.  From the
+factorial form of the reduced polynomial at `t = 0` (`reducedEval_zero`); `radial_at_zero_table` is an independent
+evaluation for `n ≤ 20`. -/
+theorem radial_at_zero (n m : Nat) (hm : m ≤ n) (hpar : (n - m) % 2 = 0) :
     radialEval n m 0 = if m = 0 then (-1 : Rat) ^ (n / 2) else 0 := by
   by_cases h0 : m = 0
   · subst h0
     rw [if_pos rfl]
-    have h := radial_at_zero_table
-    rw [List.all_eq_true] at h
-    have := h (n / 2) (List.mem_range.mpr (by omega))
-    have e : 2 * (n / 2) = n := by omega
-    rw [e] at this
-    simpa using this
+    obtain ⟨k, rfl⟩ : ∃ k, n = 2 * k := ⟨n / 2, by omega⟩
+    unfold radialEval
+    have e : (2 * k - 0) / 2 = k := by omega
+    have e' : 2 * k / 2 = k := by omega
+    rw [e, e', pow_zero, one_mul, mul_zero, reducedEval_zero]
   · rw [if_neg h0]; exact radial_at_zero_pos n m (by omega)
 
-/-- the complete mode at the centre of the aperture, whatever the direction `(c, s)` reported there -/
-theorem mode_at_centre (n : Nat) (m : Int) (D c s : Rat) (hn : n ≤ 20) (hv : valid n m = true) :
+/-- the complete mode at the centre of the aperture, whatever the direction `(c, s)` reported there — every order -/
+theorem mode_at_centre (n : Nat) (m : Int) (D c s : Rat) (hv : valid n m = true) :
     modeQ n m D 0 c s = if m = 0 then (-1 : Rat) ^ (n / 2) else 0 := by
   obtain ⟨hv1, hv2⟩ := valid_iff.mp hv
   unfold modeQ
   have e : (2 : Rat) * 0 / D = 0 := by simp
-  rw [e, radial_at_zero n m.natAbs hn hv1 hv2]
+  rw [e, radial_at_zero n m.natAbs hv1 hv2]
   by_cases h0 : m = 0
   · subst h0; simp [azimQ]
   · have : m.natAbs ≠ 0 := by omega
@@ -317,8 +318,10 @@ theorem normalisation_unit (n : Nat) (m : Int) :
 
 /-! ## Polar and Cartesian grids see the same mode -/
 
-/-- The Cartesian evaluation used for regular pupil grids (no square root, no arctangent) is the polar
-formula at `(x, y) = (r c, r s)`. -/
+/-- Bridge for a device of the *harness*, not for a code path: `zernike()` always converts the grid to polar coordinates
+(`hypot`, `arctan2`).  To evaluate the model exactly at Cartesian points with rational coordinates the driver uses
+`modeQXY` (no square root, no arctangent); this theorem says that it is the polar formula `modeQ` — the model of the
+code — at `(x, y) = (r c, r s)`. -/
 theorem mode_cartesian_eq_polar (n : Nat) (m : Int) (D r c s : Rat) (hcs : c ^ 2 + s ^ 2 = 1) :
     modeQXY n m D (r * c) (r * s) = modeQ n m D r c s := modeQXY_polar n m D r c s hcs
 
@@ -644,6 +647,41 @@ theorem zernike_orthonormal_noll (j k : Nat) (hj : 1 ≤ j) (hk : 1 ≤ k) (hj' 
   · rw [if_neg e, if_neg]
     intro h
     exact e (noll_injective j k hj hk (Prod.ext h.1 h.2))
+
+/-! ### the same three statements about what the driver executes
+
+`radialPoly` (coefficient list of the q-recursion: driver op `C13 poly`, compared with the real recursion run on a symbolic
+argument) and `azimQ` (driver op `C13 mode`) are the executed definitions; `pevalR` reads a coefficient list at a real
+argument. No specification function (`radialR`, `azimR`, `zernikeR`) occurs in these statements. -/
+
+/-- azimuthal factors of the executable model, `√2^{[m≠0]} · azimQ m (cos θ) (sin θ)`: orthogonal on `[0, 2π]`, squared norm `2π` -/
+theorem azimuthal_orthonormal_model (m m' : ℤ) :
+    ∫ θ in (0:ℝ)..(2 * π), ((if m = 0 then 1 else √2) * azimQ m (cos θ) (sin θ)) *
+        ((if m' = 0 then 1 else √2) * azimQ m' (cos θ) (sin θ)) = if m = m' then 2 * π else 0 := by
+  simp_rw [← azimR_eq_model_all_real]
+  exact azimuthal_orthonormal m m'
+
+/-- `∫₀¹ R_n^m(r) R_{n'}^m(r) r dr = δ_{nn'} / (2(n+1))` for the polynomials the recursion produces, `n, n' ≤ 20` -/
+theorem radial_orthonormal_integral_model (n n' m : Nat) (hn : n ≤ 20) (hn' : n' ≤ 20) (hm : m ≤ n) (hm' : m ≤ n')
+    (hpar : (n - m) % 2 = 0) (hpar' : (n' - m) % 2 = 0) :
+    ∫ r in (0:ℝ)..1, pevalR (radialPoly n m) r * pevalR (radialPoly n' m) r * r =
+      if n = n' then 1 / (2 * ((n : ℝ) + 1)) else 0 := by
+  have h := pint01_is_weighted_integral (pmul (radialPoly n m) (radialPoly n' m))
+  rw [radial_orthonormal n n' m hn hn' hm hm' hpar hpar'] at h
+  simp_rw [pevalR_pmul] at h
+  rw [h]
+  split <;> simp
+
+/-- **Orthonormality over the unit disc of the modes as the model computes them**: normalisation × recursion polynomial ×
+`azimQ`, for all valid `(n, m)`, `(n', m')` with `n, n' ≤ 20` -/
+theorem zernike_orthonormal_disc_model (n n' : Nat) (m m' : ℤ) (hn : n ≤ 20) (hn' : n' ≤ 20)
+    (hv : valid n m = true) (hv' : valid n' m' = true) :
+    ∫ r in (0:ℝ)..1, ∫ θ in (0:ℝ)..(2 * π),
+        (√((n : ℝ) + 1) * (if m = 0 then 1 else √2) * (pevalR (radialPoly n m.natAbs) r * azimQ m (cos θ) (sin θ))) *
+        (√((n' : ℝ) + 1) * (if m' = 0 then 1 else √2) * (pevalR (radialPoly n' m'.natAbs) r * azimQ m' (cos θ) (sin θ))) * r
+      = if n = n' ∧ m = m' then π else 0 := by
+  simp_rw [← zernikeR_eq_model_all_real n m hv, ← zernikeR_eq_model_all_real n' m' hv']
+  exact zernike_orthonormal_disc n n' m m' hn hn' hv hv'
 
 end Integrals
 
